@@ -4,6 +4,7 @@ import (
 	"encoding/binary"
 	"fmt"
 	"math"
+	"reflect"
 )
 
 // VKind classifies a (type, bytes) pair.
@@ -47,6 +48,9 @@ type Verdict struct {
 	Views []Extent
 	// NoCopyEmpty counts zero-length nocopy values.
 	NoCopyEmpty int
+	// Prealloc: bytes a decoder would allocate if it reserved count*size(element) for every
+	// container it enters (each count already checked against the bytes remaining at its level).
+	Prealloc uint64
 	// kindGray: success vs error is not fixed (junk type codes in empty skipped containers).
 	kindGray bool
 }
@@ -287,7 +291,8 @@ func (d *mdec) value(t *TypeSpec, pos int, cur Val, depth int, isField bool) (Va
 		if l > (len(b)-pos)/wtMin(et) {
 			return cur, pos, d.fail("list count exceeds input")
 		}
-		out := Val{L: make([]Val, 0, l)}
+		d.v.Prealloc += uint64(l) * elemFootprint(t.Elem)
+		out := Val{L: make([]Val, 0, min(l, 1<<16))}
 		for i := 0; i < l; i++ {
 			e, end, ok := d.value(t.Elem, pos, d.freshElem(t.Elem), depth+1, false)
 			if !ok {
@@ -316,7 +321,8 @@ func (d *mdec) value(t *TypeSpec, pos int, cur Val, depth int, isField bool) (Va
 		if l > (len(b)-pos)/(wtMin(kt)+wtMin(vt)) {
 			return cur, pos, d.fail("map count exceeds input")
 		}
-		out := Val{M: make([]KV, 0, l)}
+		d.v.Prealloc += uint64(l) * (elemFootprint(t.Key) + elemFootprint(t.Elem) + 16)
+		out := Val{M: make([]KV, 0, min(l, 1<<16))}
 		for i := 0; i < l; i++ {
 			k, end, ok := d.value(t.Key, pos, d.freshElem(t.Key), depth+1, false)
 			if !ok {
@@ -522,4 +528,14 @@ func (v *Verdict) grayKind(why string) {
 	if v.Why == "" {
 		v.Why = why
 	}
+}
+
+// elemFootprint: Go memory of one element of type t (the pointee included for struct pointers).
+func elemFootprint(t *TypeSpec) uint64 {
+	rt := GoType(t)
+	n := uint64(rt.Size())
+	if rt.Kind() == reflect.Ptr {
+		n += uint64(rt.Elem().Size())
+	}
+	return n
 }
